@@ -128,7 +128,7 @@ func applyMessageMalformation(msg *remoteexecution.Directory, m malform) {
 // that repairs everything repairable (missing or corrupted blobs are
 // stored correctly) and returns what it repaired.
 func materializeWith(c *fakeCAS, g *dagSpec, malforms []malform) (mat *materialized, badTmpl map[int]string, badContent map[int]string, repair func() (tmpl []int, content []int)) {
-	mat = &materialized{spec: g}
+	mat = &materialized{spec: g, badKeys: map[string]bool{}}
 	badTmpl, badContent = map[int]string{}, map[int]string{}
 	for _, content := range g.Contents {
 		mat.fileDigest = append(mat.fileDigest, c.store([]byte(content)))
@@ -175,6 +175,7 @@ func materializeWith(c *fakeCAS, g *dagSpec, malforms []malform) (mat *materiali
 				continue // already permanently malformed
 			}
 			key := casKey(mat.dirDigests[t])
+			mat.badKeys[key] = true
 			fixes = append(fixes, fix{key, mat.dirBytes[t]})
 			fixedTmpl = append(fixedTmpl, t)
 			badTmpl[t] = m.Kind
@@ -195,6 +196,7 @@ func materializeWith(c *fakeCAS, g *dagSpec, malforms []malform) (mat *materiali
 				continue // reads of empty files never reach the CAS
 			}
 			key := casKey(mat.fileDigest[i])
+			mat.badKeys[key] = true
 			fixes = append(fixes, fix{key, []byte(g.Contents[i])})
 			fixedContent = append(fixedContent, i)
 			badContent[i] = m.Kind
